@@ -251,6 +251,7 @@ def run_rules(pid, tier, seed, fams, per_family_quick, level_rule, assumptions, 
         "exact_tier": sum(1 for o in ok if o.get("exact")), "projection_tier": sum(1 for o in ok if not o.get("exact")),
         "primitives_covered": len(prim_cov), "per_primitive": prim_cov,
         "primitives_whose_every_reverse_call_raised": always,
+        "second_order_not_evaluated_harness": sum(1 for o in ok if o.get("second", {}).get("harness")),
         "observations_rejected_by_contract": nviol, "known_findings_reobserved": verdict.known_hits,
         "exhaustive": not quick,
         "samples": [{"cfg": o["cfg"], "in": o["in"], "out": o["out"], "vjp": {k: o["vjp"][k] for k in ("raised", "nbad", "struct")},
